@@ -29,10 +29,12 @@ VERIF = os.path.dirname(os.path.dirname(os.path.dirname(os.path.abspath(__file__
 SA.write_if_changed(os.path.join(VERIF, "harness", "save_apps.inc"), SA.cxx_source())
 HARNESS = {"src": ["save.cpp"], "deps": ["common.h", "save_apps.inc"], "cxxflags": ["-O0", "-g0"]}
 STATELESS = True
-RULE = ("eleven generated applications (fixed pool; 10-80 parameter instances each; rParam/rParamI/rParamF/rToggle/"
+RULE = ("fourteen generated applications (fixed pool; 10-80 parameter instances each; rParam/rParamI/rParamF/rToggle/"
         "rOption/rString (capacities 4..400), rArrayI/F/T (2..14 elements; defaults spelled element by element, as repetitions "
         "`6x7`, as ranges `1 ... 5`, or per preset), ports with the enumeration inside their name (`v#3/en`), rRecur/rRecurs/"
-        "rRecurp and enumerated pointer sub-trees, rEnabledBy on sub-trees and on parameters, rDefaultDepends+rPreset(s) "
+        "rRecurp and enumerated pointer sub-trees, rEnabledBy on sub-trees and on parameters, sub-trees enabled by a toggle of "
+        "their own - rRecur(sub, rEnabledBy(sub/t)) and rSelf(T, rEnabledBy(t)), toggles on or off by default, nested - "
+        "rDefaultDepends+rPreset(s) "
         "(chains up to 7 deep, lists up to 16 entries), rDepends on parameters and on sub-trees (lists up to 16 entries), "
         "rOptions up to 16 entries, sibling names that extend each other) x states reached by 0..40 parameter messages "
         "(in-range, out-of-range, extreme values incl. +-infinity, symbols - also unknown ones - and ints for options, strings "
@@ -56,9 +58,16 @@ ASSUMPTIONS = [
     "declared in the metadata scan_deps reads (rDefaultDepends / rDepends / rEnabledBy reach every ancestor, directly or "
     "through another ancestor); MetaRanked - that metadata is acyclic and less than 64 levels deep. Bool versions of all of "
     "them are evaluated by the compiled model for every application of the pool on every run (evidence: "
-    "input_distribution.theorem_hypotheses_per_app): they all hold for A0-A5; A6-A10 (rDepends lists naming mutually "
-    "independent ports, rDepends on sub-trees, preset-dependent array defaults) violate anc_chain, A9/A10 also array_ok: "
-    "for those applications only the correspondence and the oracle speak, not the theorems",
+    "input_distribution.theorem_hypotheses_per_app): they all hold for A0-A5 and for A11-A13 (the applications with "
+    "sub-trees enabled by a toggle of their own); A6-A10 (rDepends lists naming mutually independent ports, rDepends on "
+    "sub-trees, preset-dependent array defaults) violate anc_chain or array_ok: for those applications only the "
+    "correspondence and the oracle speak, not the theorems",
+    "a toggle that enables the sub-tree it lives in (rRecur(sub, rEnabledBy(sub/t)) / rSelf(T, rEnabledBy(t))) is modelled "
+    "like a toggle of the parent table: it guards every other parameter of the sub-tree; it has a constant default and "
+    "is not itself a preset port, an rDepends entry or the enabling port of anything else; switching it re-initialises the "
+    "sub-tree (rChangeCb); no pointer sub-trees below such a sub-tree; the `sub/t` form is used with plain rRecur only "
+    "(port_is_enabled compares names up to the first '/': `sub#N/` cannot be written that way); fixes/C13-scan-deps-self-edge "
+    "and fixes/C13-scan-deps-self-port applied (without them files of A11-A13 do not load: C13-F26, C13-F27)",
     "preset ports are int/option ports at the level of the dependant (get_default_value dispatches the depended "
     "port on the dependant's own Ports); every preset table has an rDefault fall-back",
     "no NaN / -0.0 float values (the comparison with the default is numeric); +infinity is generated and fails: known "
@@ -80,8 +89,8 @@ TRUSTED = ["hand-written abstract model RtoscModel/Save/{App,Deps,Load,Save}.lea
 LEVEL_TEXT = ("Lean theorems over the abstract application model, for every application satisfying App.WF (incl. anc_chain and "
               "array_ok, see assumptions), App.MetaCovers and MetaRanked, and every reachable state: load(save s) restores s and "
               "counts the lines, a line is present iff the value differs from its preset-dependent default, damaged files are "
-              "rejected; the hypotheses are evaluated (as Bools) for each generated application on every run and hold for six of "
-              "the eleven; all eleven are compared, model against compiled implementation built from the real macros, and the "
+              "rejected; the hypotheses are evaluated (as Bools) for each generated application on every run and hold for nine of "
+              "the fourteen; all fourteen are compared, model against compiled implementation built from the real macros, and the "
               "property is evaluated directly on the implementation's output")
 LEVEL_NOTE = ("partial: the theorems are about abstract lines (each text/encoding stage is tied by correspondence only; "
               "load_save_restores_scanned_partial / posinf_not_restored_counterexample state what the text stages of the "
@@ -224,6 +233,22 @@ def gen_history(rng, app, stats, maxlen, lens=(0, 1, 1, 2, 3, 5, 8, 12, 20)):
         for g, _p in it.guards:
             msgs.append(hmsg(app.insts[g].addr, ("T",)))
         msgs.append(hmsg(it.addr, rand_msg_val(rng, it, stats)))
+    selft = [x for x in app.insts if x.f.get("selftog")]
+    if selft and n and rng.random() < 0.3:
+        # a sub-tree enabled by a toggle of its own: switch it (off when it is on by default), sometimes back on, and
+        # write below it
+        t = rng.choice(selft)
+        stats["self_toggle_walks"] = stats.get("self_toggle_walks", 0) + 1
+        for g, _p in t.guards:
+            msgs.append(hmsg(app.insts[g].addr, ("T",)))
+        seq = rng.choice([["F"], ["T"], ["F", "T"], ["T", "F"], ["T"]])
+        below = [x for x in app.insts if any(g == t.idx for g, _p in x.guards)]
+        for v in seq:
+            msgs.append(hmsg(t.addr, (v,)))
+            for _ in range(rng.choice([0, 1, 2])):
+                if below:
+                    x = rng.choice(below)
+                    msgs.append(hmsg(x.addr, rand_msg_val(rng, x, stats)))
     if n and rng.random() < 0.3:
         # walk down a dependency chain: some ancestors of one parameter, top first, then the parameter itself; the
         # ancestors that are left out stay at their (preset-dependent) defaults and are absent from the file
@@ -386,7 +411,7 @@ def parse_out(out):
     d = {}
     i = 0
     while i + 1 < len(w):
-        if w[i] in ("O", "S", "H", "R", "F", "N", "P", "SAME", "W"):
+        if w[i] in ("O", "S", "H", "R", "F", "N", "P", "A", "SAME", "W"):
             d.setdefault(w[i], w[i + 1])
             i += 2
         else:
